@@ -168,7 +168,7 @@ def positions(n, m, quick):
     for (_, r, c) in pos:
         if r >= 0 and c >= 0:
             a1 += [("a", s) for s in (a1_spellings(r, c) if (r < 6 and c < 6) else a1_spellings(r, c)[:1])]
-    extra = ["A0", "$A$0", "a1", "b2", "A", "1", "", "AAAA1", "A1:B2", "A-1", "B1x", "ZZZ1", "ALL1", "ALM1"]
+    extra = ["A0", "$A$0", "a1", "b2", "$b$2", "aA1", "Ab2", "A", "1", "", "AAAA1", "A1:B2", "A-1", "B1x", "ZZZ1", "ALL1", "ALM1"]
     return pos + a1 + [("a", s) for s in extra]
 
 
@@ -229,6 +229,36 @@ def run(ctx: Ctx):
             if o2 is not None and o2 != o and pos[1] not in ("", "A1:B2", "B1x"):
                 ctx.violation("a1-rc-disagree", f"{method}({pos[1]!r}) -> {o} but {method}({r},{c}) -> {o2} on {n}x{m}",
                               {"rows": n, "cols": m, "method": method, "pos": list(pos)})
+
+    # the meaning of an A1 text decided independently of the library's own decoder: a strict upper-case A1 text denotes
+    # its (row, column); a text that differs from a valid one only in letter case may be refused (IndexError, nothing
+    # changed) or read as that position - it must never reach another cell
+    import re as _re
+
+    def own_a1(sx):
+        mm = _re.fullmatch(r"\$?([A-Z]{1,3})\$?([0-9]+)", sx)
+        if not mm:
+            return None
+        col = 0
+        for ch in mm.group(1):
+            col = col * 26 + (ord(ch) - 64)
+        return int(mm.group(2)) - 1, col - 1
+    for t, o in zip(tasks, out):
+        n, m, method, pos = t
+        if pos[0] != "a":
+            continue
+        strict = own_a1(pos[1])
+        folded = own_a1(pos[1].upper()) if strict is None and pos[1].isascii() else None
+        target = strict or folded
+        if target is None or target[0] < 0:
+            continue
+        o2 = by_key.get((n, m, method, target[0], target[1]))
+        if o2 is None:
+            continue
+        allowed = {o2} if strict else {o2, "err IndexError"}
+        if o not in allowed:
+            ctx.violation("a1-reaches-other-cell", f"{method}({pos[1]!r}) -> {o}; the row/column form {method}{target} -> {o2} on {n}x{m}",
+                          {"rows": n, "cols": m, "method": method, "pos": list(pos)})
 
     # iterators
     req, out = [], []
